@@ -356,7 +356,9 @@ def sym_programs(draw):
                 continue
             bad = list(sh)
             bad[d] = draw(st.sampled_from(others))
-            how = draw(st.sampled_from(["stack", "einsum_repeat", "where3"]))
+            how = draw(st.sampled_from(["stack", "einsum_repeat", "where3",
+                                        "matmul", "matmul_unit", "call",
+                                        "call_rank"]))
             nodes.append({"op": "badop", "how": how, "args": [i], "shape": bad,
                           "axis": d})
             shapes.append(None)
@@ -481,6 +483,35 @@ def build_sym(desc, names=None):
                     two = pt.make_placeholder(
                         "bad2", (a[0].shape[d], other.shape[d]), np.float64)
                     r = pt.einsum("ii->i", two)
+                elif nd["how"] == "matmul":
+                    # the contracted axis: form A against form B
+                    left = pt.make_placeholder(
+                        "badl", (3, a[0].shape[d]), np.float64)
+                    right = pt.make_placeholder(
+                        "badr", (other.shape[d], 2), np.float64)
+                    r = left @ right
+                elif nd["how"] == "matmul_unit":
+                    # ... and against the static 1 (which an einsum would
+                    # broadcast, a matrix product must not)
+                    left = pt.make_placeholder(
+                        "badl", (3, a[0].shape[d]), np.float64)
+                    right = pt.make_placeholder("badr", (1, 2), np.float64)
+                    r = (left @ right) if nd["shape"][d] != "2" else (
+                        right.T @ left.T)
+                elif nd["how"] in ("call", "call_rank"):
+                    # call argument checking: a parameter declared with the
+                    # other form / with one axis more or less
+                    if nd["how"] == "call":
+                        pshape = tuple(other.shape)
+                    elif len(a[0].shape) > 1 and nd["shape"][d] != "2":
+                        pshape = tuple(a[0].shape[:-1])
+                    else:
+                        pshape = tuple(a[0].shape) + (a[0].shape[d],)
+                    par = pt.make_placeholder("badp", pshape, np.float64)
+                    res = pt.trace_call(lambda x: x * 2, par)
+                    fd = res._container.function
+                    (pname,) = tuple(fd.parameters)
+                    r = fd(**{pname: a[0]})
                 else:
                     # cond: (form A,), x: (1,), y: (form B,)
                     c = pt.make_placeholder("badc", (a[0].shape[d],), np.float64)
